@@ -481,14 +481,14 @@ func trimPathPrefix(u *url.URL, prefix string) *url.URL {
 	if u.RawQuery != "" || u.ForceQuery == true {
 		trimmedURI = trimmedPath + "?" + u.RawQuery
 	}
-	if u.Fragment != "" {
-		trimmedURI = trimmedURI + "#" + u.Fragment
-	}
-	trimmedURL, err := url.Parse(trimmedURI)
+	// Parse the trimmed URI the way the request-target was parsed: what remains
+	// is a path even if it begins with "//", never a reference to another host
+	trimmedURL, err := url.ParseRequestURI(trimmedURI)
 	if err != nil {
 		log.Printf("[ERROR] Unable to parse trimmed URL %s: %v", trimmedURI, err)
 		return u
 	}
+	trimmedURL.Fragment, trimmedURL.RawFragment = u.Fragment, u.RawFragment
 	return trimmedURL
 }
 
